@@ -66,6 +66,26 @@ Proof.
     split; [|exact E2]. rewrite E1. destruct reduce; reflexivity.
 Qed.
 
+Lemma take_steps_prefix n : forall xs pre,
+  prefix_map (fun pre x => if (Z.of_nat (length pre) <? n)%Z then [It x] else []) pre xs
+  = map its (take_steps (n - Z.of_nat (length pre)) xs).
+Proof.
+  induction xs as [|x xs IH]; intro pre; cbn [prefix_map take_steps map]; [reflexivity|].
+  rewrite IH, app_length. cbn [length]. f_equal.
+  - destruct (Z.ltb_spec (Z.of_nat (length pre)) n); destruct (Z.ltb_spec 0 (n - Z.of_nat (length pre))); try lia; reflexivity.
+  - do 2 f_equal. lia.
+Qed.
+Lemma prefix_map_ext {A B} (f g : list A -> A -> B) : (forall pre x, f pre x = g pre x) ->
+  forall xs pre, prefix_map f pre xs = prefix_map g pre xs.
+Proof. intros H. induction xs as [|x xs IH]; intro pre; cbn [prefix_map]; [reflexivity|]. now rewrite H, IH. Qed.
+Lemma first_steps_prefix (xs : list val) :
+  prefix_map (fun pre x => match pre with [] => [It x] | _ => [] end) [] xs = map its (take_steps 1 xs).
+Proof.
+  rewrite (prefix_map_ext _ (fun pre x => if (Z.of_nat (length pre) <? 1)%Z then [It x] else [])).
+  - rewrite take_steps_prefix. cbn [length Z.of_nat]. reflexivity.
+  - intros [|y pre] x; [reflexivity|]. cbn [length]. destruct (Z.ltb_spec (Z.of_nat (S (length pre))) 1); [lia|reflexivity].
+Qed.
+
 Theorem simple_sound o xs r : ptimed_simple o xs = Some r -> tsound (bl item (den o)) xs r.
 Proof.
   destruct o; cbn [ptimed_simple]; intro H; try discriminate.
@@ -93,12 +113,23 @@ Proof.
       injection H as Hr. subst r. cbn [fst snd ldone L_scan]. rewrite E2, Ef, (fits_coerce t v Ev).
       destruct reduce; reflexivity.
     + injection H as Hr. subst r. cbn [fst snd ldone L_scan app]. rewrite E2. destruct reduce; reflexivity.
+  - (* first *)
+    destruct xs as [|x xs']; [discriminate|]. inversion H; subst.
+    change (bl item (den OFirst)) with L_first. unfold tsound.
+    destruct (first_spec (x :: xs')) as [E1 E2]. unfold steps_of, done_of in E1, E2.
+    destruct (ltimed item L_first (its (x :: xs'))) as [os d]. cbn [fst snd] in *. subst os d.
+    rewrite first_steps_prefix. reflexivity.
   - (* last *)
     destruct xs as [|x xs']; [discriminate|]. inversion H; subst.
     change (bl item (den OLast)) with L_last. unfold tsound.
     destruct (last_spec (x :: xs')) as [E1 E2]. unfold steps_of, done_of in E1, E2.
     destruct (ltimed item L_last (its (x :: xs'))) as [os d]. cbn [fst snd] in *. subst os d.
     rewrite silent_prefix_map. unfold silent. cbn [fst snd map]. rewrite map_map. reflexivity.
+  - (* take *)
+    inversion H; subst. change (bl item (den (OTake n))) with (L_take n). unfold tsound.
+    destruct (take_spec n xs) as [E1 E2]. unfold steps_of, done_of in E1, E2.
+    destruct (ltimed item (L_take n) (its xs)) as [os d]. cbn [fst snd] in *. subst os d.
+    rewrite take_steps_prefix. cbn [length Z.of_nat]. now rewrite Z.sub_0_r.
   - (* assert *)
     destruct (all_true (apply1 p) xs) eqn:E; [|discriminate]. inversion H; subst.
     change (bl item (den (OAssert p))) with (L_assert p).
